@@ -130,7 +130,7 @@ def _one_case(rng, k, force=None):
         n = min(n, 14)
     Y = force.get("Y", _shape(rng))
     size = _prod(Y)
-    int_dtype = force.get("dtype", "int" if (exact and rng.random() < 0.08) else "float") == "int"
+    int_dtype = force.get("dtype", "int" if (exact and "style" not in force and rng.random() < 0.08) else "float") == "int"
     styles_e = ["constant", "discrete", "discrete", "skewed", "skewed", "outlier", "dyadic", "dyadic"]
     if int_dtype:
         styles_e = ["intcount", "intcount", "constant_int"]
@@ -452,11 +452,11 @@ def oracle(case, res):
                      f"method {method}: component {empty[0]} has no finite replicate and bootstrap_ci raises {res.get('err')} "
                      f"({res.get('msg')}) for the whole array instead of returning NaN limits for that component "
                      "(the quantile method does); the limits of the other components are lost, so components are not "
-                     "computed independently")]
+                     "computed independently (regression of fix fa251ac)")]
         if method == "bca" and case.get("dtype") == "int" and "UFuncTypeError" in str(res.get("err")):
             return [("C13/int-replicates/bca-raises",
                      f"method bca with integer-typed replicates and estimate: bootstrap_ci raises {res.get('err')} ({res.get('msg')}) "
-                     "instead of returning the BCa limits (np.divide into out=np.zeros_like(a_num), an integer buffer)")]
+                     "instead of returning the BCa limits (regression of fix 4a7af20: the acceleration must be divided into a float buffer)")]
         return [("C13/exception", f"bootstrap_ci raised {res.get('err')}: {res.get('msg')}")]
     r = res["ok"]
     want_shape = Y + list(ash) + [2]
